@@ -1747,6 +1747,10 @@ impl World for C19 {
         out
     }
 
+    fn builder_kinds() -> &'static [usize] {
+        &[K_NEW, K_DEFAULT]
+    }
+
     fn op_kind(op: &Op) -> usize {
         match op {
             Op::New { .. } => K_NEW,
